@@ -55,7 +55,7 @@ class Ans:
 
 
 def shards(tier, seed):
-    mult = 1 if tier == "quick" else 12
+    mult = 1 if tier == "quick" else 90
     return [{"n_seq": 250 * mult, "n_conc": 120 * mult, "stress": i == 15, "stress_ops": 40000 * mult} for i in range(16)]
 
 
